@@ -439,7 +439,50 @@ func joinArgs(r *core.Rand, args []string, flagAt map[int]bool) string {
 	return b.String()
 }
 
+// genMirrorPath: curve runs in which a control point is the exact reflection of a control point written
+// several segments earlier, across a change of curve family (what a stale "last control point" would match).
+func genMirrorPath(r *core.Rand) string {
+	n := func() int { return r.Range(-20, 20) }
+	x0, y0 := n(), n()
+	c1x, c1y, e1x, e1y := n(), n(), n(), n()
+	var b strings.Builder
+	fmt.Fprintf(&b, "M%d %d", x0, y0)
+	quadFirst := r.Bool()
+	if quadFirst {
+		fmt.Fprintf(&b, "Q%d %d %d %d", c1x, c1y, e1x, e1y)
+	} else {
+		fmt.Fprintf(&b, "C%d %d %d %d %d %d", n(), n(), c1x, c1y, e1x, e1y)
+	}
+	cx, cy := e1x, e1y
+	for k := r.Range(1, 2); k > 0; k-- {
+		ex, ey := n(), n()
+		if quadFirst {
+			fmt.Fprintf(&b, "C%d %d %d %d %d %d", n(), n(), n(), n(), ex, ey)
+		} else {
+			fmt.Fprintf(&b, "Q%d %d %d %d", n(), n(), ex, ey)
+		}
+		cx, cy = ex, ey
+	}
+	// reflection of the OLD control point about the current point
+	mx, my := 2*cx-c1x, 2*cy-c1y
+	if r.Chance(1, 3) {
+		mx, my = 2*e1x-c1x, 2*e1y-c1y // ... or about the point where that curve ended
+	}
+	if quadFirst {
+		fmt.Fprintf(&b, "Q%d %d %d %d", mx, my, n(), n())
+	} else {
+		fmt.Fprintf(&b, "C%d %d %d %d %d %d", mx, my, n(), n(), n(), n())
+	}
+	if r.Bool() {
+		fmt.Fprintf(&b, "L%d %d", n(), n())
+	}
+	return b.String()
+}
+
 func genPathData(r *core.Rand) string {
+	if r.Chance(1, 10) {
+		return genMirrorPath(r)
+	}
 	r.Small = r.Chance(1, 3)
 	defer func() { r.Small = false }()
 	var b strings.Builder
@@ -514,6 +557,9 @@ func svgKeepAttr(root bool, el string, a xAttr, val string, o svgOpts) bool {
 	if root {
 		if d, ok := svgRootDefaults[a.Name]; ok && numEqualOrSame(val, d) {
 			return false
+		}
+		if a.Name == "preserveAspectRatio" && collapseWS(val) == "xMidYMid" {
+			return false // meet is the default of the second component
 		}
 		if o.inline && a.Name == "xmlns" {
 			return false
@@ -778,7 +824,7 @@ func genSVGDoc(r *core.Rand) string {
 	if foreign {
 		b.WriteString(" xmlns:ink=\"http://ink.example/ns\" xmlns:rdf=\"http://www.w3.org/1999/02/22-rdf-syntax-ns#\"")
 	}
-	for _, a := range []string{" version=\"1.1\"", " x=\"0\"", " y=\"0px\"", " x=\"5\"", " preserveAspectRatio=\"xMidYMid meet\"", " preserveAspectRatio=\"none\"", " baseProfile=\"none\"", " viewBox=\"0 0 100.0 050\"", " viewBox=\"0,0,1e2,50\"", " width=\"100px\"", " height=\"50.0mm\"", " width=\"100%\"", " xml:lang=\"en\"", " id=\"root\""} {
+	for _, a := range []string{" version=\"1.1\"", " x=\"0\"", " y=\"0px\"", " x=\"5\"", " preserveAspectRatio=\"xMidYMid meet\"", " preserveAspectRatio=\"none\"", " preserveAspectRatio=\"xMidYMid slice\"", " preserveAspectRatio=\"xMinYMin meet\"", " preserveAspectRatio=\"xMidYMid\"", " baseProfile=\"none\"", " viewBox=\"0 0 100.0 050\"", " viewBox=\"0,0,1e2,50\"", " width=\"100px\"", " height=\"50.0mm\"", " width=\"100%\"", " xml:lang=\"en\"", " id=\"root\""} {
 		if r.Chance(1, 4) {
 			name := a[1:strings.IndexByte(a, '=')]
 			if !strings.Contains(b.String(), " "+name+"=") {
